@@ -48,6 +48,9 @@ var queries = []string{
 	`{ users { device { id } device { owner { name } owner { email } } } }`,
 	`{ users { id } users { boss { name } boss { age } boss { boss { id } } } }`,
 	`{ devices { owner { id } } devices { owner { email } tags owner { age } } }`,
+	// fragments whose type condition is the union itself
+	`{ everyone { ...People } } fragment People on Everyone { ... on Admin { id hiding } ... on User { id email secret } }`,
+	`{ everyone { __typename ... on Everyone { ... on User { name age } ... on Admin { power } } } }`,
 	// a mutation whose result needs fields of other services (the hops after it are queries)
 	`mutation { pickUser(id: 1) { id name email age device { temp } } }`,
 	`mutation { pickUser(id: 2) { boss { email secret } devices { tags owner { age } } } }`,
@@ -78,6 +81,14 @@ func init() {
 }
 
 func normNumbers(v interface{}) interface{} { n, _ := gqlfix.Norm(v); return n }
+
+// A fragment whose type condition is the union's own name applies to every member. The gateway's normaliser honours
+// that; the single-server executor silently ignores such a fragment (known finding). For these queries the gateway is
+// judged against the single server's answer to the equivalent query with the fragment inlined.
+var unionNameInlined = map[string]string{
+	`{ everyone { ...People } } fragment People on Everyone { ... on Admin { id hiding } ... on User { id email secret } }`: `{ everyone { ... on Admin { id hiding } ... on User { id email secret } } }`,
+	`{ everyone { __typename ... on Everyone { ... on User { name age } ... on Admin { power } } } }`:                     `{ everyone { __typename ... on User { name age } ... on Admin { power } } }`,
+}
 
 // dropExtraTypename removes "__typename" keys from got wherever want (the same position in the
 // combined server's answer) does not have one.
@@ -161,6 +172,7 @@ func runSeq(rp *explore.Report, tier string) {
 	// monolith answers
 	type key struct{ d, q int }
 	want := map[key]interface{}{}
+	wantInlined := map[key]interface{}{}
 	wantErr := map[key]error{}
 	for di, d := range datasets {
 		mono := fedfix.Build(d, nil, "").MustBuild()
@@ -169,6 +181,12 @@ func runSeq(rp *explore.Report, tier string) {
 			want[key{di, qi}], wantErr[key{di, qi}] = res, err
 			if err != nil {
 				panic(fmt.Sprintf("monolith rejects %s: %v", q, err))
+			}
+			if inl, ok := unionNameInlined[q]; ok {
+				wantInlined[key{di, qi}], err = gqlfix.Exec(context.Background(), mono, gqlfix.FIFO{}, inl, nil)
+				if err != nil {
+					panic(fmt.Sprintf("monolith rejects %s: %v", inl, err))
+				}
 			}
 		}
 	}
@@ -218,10 +236,18 @@ func runSeq(rp *explore.Report, tier string) {
 					rp.AddSample(map[string]interface{}{"assignment": a.String(), "query": q})
 				}
 				w := want[key{di, qi}]
-				if gerr != nil || !reflect.DeepEqual(normNumbers(got), w) {
+				wi, hasInlined := wantInlined[key{di, qi}]
+				dropsUnionNameFragment := hasInlined && gerr == nil && !reflect.DeepEqual(dropExtraTypename(normNumbers(got), wi), wi)
+				if gerr != nil || !reflect.DeepEqual(normNumbers(got), w) || dropsUnionNameFragment {
 					sig := fmt.Sprintf("c06/gateway!=monolith/q%d", qi)
 					if gerr == nil && reflect.DeepEqual(dropExtraTypename(normNumbers(got), w), w) {
 						sig = "c06/known/extra-__typename-under-union"
+					}
+					if hasInlined && gerr == nil && !dropsUnionNameFragment {
+						sig = "c06/known/single-server-ignores-fragment-on-union-name"
+					} else if dropsUnionNameFragment {
+						sig = fmt.Sprintf("c06/gateway!=monolith(inlined)/q%d", qi)
+						w = wi
 					}
 					rp.AddViolation(&explore.Violation{Item: fmt.Sprintf("data=%d %s query=%s", di, a.String(), q), Stable: true,
 						Signature: sig,
